@@ -46,9 +46,98 @@ def suites(rng, tier):
     a = [RG.gen_liq_case(rng, dist) for _ in range(n)]
     b = [RG.pythify(rng, H.gen_case(rng)) for _ in range(m)]
     c = [H.gen_case(rng) for _ in range(k)]
+    z = {"quick": 250, "thorough": 4000, "search": 2000}[tier]
+    dz = {}
+    zl = [gen_zero_crossing(rng, dz) for _ in range(z)]
     return [{"suite": "risk", "name": "risk-liquidation-boundaries", "lines": a, "distribution": dict(dist, cases=n)},
+            {"suite": "risk", "name": "risk-liquidation-zero-crossing", "lines": zl, "distribution": dict(dz, cases=z)},
             {"suite": "risk", "name": "risk-malformed-streams", "lines": b, "distribution": {"cases": m}},
             {"suite": "hops", "name": "hops-handlers", "lines": c, "distribution": {"cases": k}}]
+
+
+def gen_zero_crossing(rng, dist):
+    for _ in range(200):
+        r = _gen_zero_crossing(rng, dist)
+        if r is not None:
+            return r
+    raise RuntimeError('zero-crossing generator: no scenario found')
+
+
+def _gen_zero_crossing(rng, dist):
+    """liquidations at the exact point where the liquidatee's maintenance health crosses zero: two Fixed-oracle banks
+    with maintenance weights wa < 0.95*wl (so that repaying improves health), a borrower just under water, and seize
+    amounts n*+k for the largest n* with predicted post-liquidation health <= 0 (closest above first, then n* itself)"""
+    from fractions import Fraction
+    now = RG.NOW0 + rng.randrange(0, 10 ** 6)
+    wa_m = rng.choice([Fraction(5, 10), Fraction(7, 10), Fraction(8, 10), Fraction(85, 100)])
+    wl_m = rng.choice([Fraction(1), Fraction(11, 10), Fraction(125, 100)])
+    banks, orcs = [], []
+    for i in range(2):
+        b, _ = RG.gen_bank(rng, now, i, {"pyth": 0.0})
+        b.update({"orig": 0, "tier": 0, "tavil": 0, "etag": 0, "emode": [], "op_state": 1, "tag": 0, "tokprog": 0,
+                  "asv": R.ONE, "lsv": R.ONE})
+        banks.append(b)
+        orcs.append(None)
+    ab, lb = 0, 1
+    banks[ab].update({"awi": R.fxr(wa_m - Fraction(1, 10)), "awm": R.fxr(wa_m), "dec": rng.choice([6, 8, 9]),
+                      "price": R.fxr(rng.choice([Fraction(1), Fraction(10), Fraction(100), Fraction(1, 100)]))})
+    banks[lb].update({"lwi": R.fxr(wl_m + Fraction(1, 10)), "lwm": R.fxr(wl_m), "dec": rng.choice([6, 9]),
+                      "price": R.fxr(rng.choice([Fraction(1), Fraction(2), Fraction(1, 2)]))})
+    pf = [0, 0, 0]
+    pred = R.Pred(banks, orcs, 3, now)
+    ops = []
+    amt = min(RG.native(banks[lb], None, Fraction(10 ** 7)), 1 << 60)
+    ops.append([1, 0, lb, amt, 0]); pred.deposit(0, lb, amt)
+    camt = min(RG.native(banks[ab], None, Fraction(rng.choice([100, 1000, 54321]))), 1 << 58)
+    ops.append([1, 1, ab, camt, 0]); pred.deposit(1, ab, camt)
+
+    def okb(n):
+        hh, _ = pred.init_health(1, {lb: (0, pred.lshares(lb, n * R.ONE))})
+        return hh >= 0
+    nmax = R.bisect_max(okb, 1 << 60)
+    if nmax < 1000:
+        dist["retry-small-limit"] = dist.get("retry-small-limit", 0) + 1
+        return None
+    bamt = max(1, nmax * 95 // 100)
+    ops.append([3, 1, lb, bamt]); pred.borrow(1, lb, bamt)
+    # lower the collateral price to the point where maintenance health is just negative
+    p0 = pred.fixed[ab]
+
+    def healthy_at(p):
+        pred.fixed[ab] = max(1, p)
+        hh, _ = pred.maint_health(1)
+        return hh >= 0
+    lo = R.bisect_max(lambda d: healthy_at(p0 - d), p0 - 1)     # largest price cut that keeps the account healthy
+    cut = lo + max(1, (p0 - lo) * rng.choice([1, 5, 20]) // 1000) + 1
+    pred.fixed[ab] = max(1, p0 - cut)
+    ops.append([19, ab, pred.fixed[ab]])
+    hh, _ = pred.maint_health(1)
+    if hh >= 0:
+        dist["retry-still-healthy"] = dist.get("retry-still-healthy", 0) + 1
+        return None
+    have = pred.pos[1].get(ab, [0, 0])[0] * pred.banks[ab]["asv"] // (R.ONE * R.ONE)
+    px = pred.px()
+
+    def post_health(n):
+        da, dl = banks[ab]["dec"], banks[lb]["dec"]
+        v = Fraction(n) * px[ab]["rt"][0] / 10 ** da
+        q = v * 10 ** dl / px[lb]["rt"][1]
+        relief = int(q * Fraction(95, 100) * R.ONE)
+        if pred.lshares(lb, relief) >= pred.pos[1][lb][1]:
+            return Fraction(1)          # the debt would be exhausted: not the region we bisect in
+        h2, _ = pred.maint_health(1, {ab: (-pred.ashares(ab, n), 0), lb: (0, -pred.lshares(lb, relief))})
+        return h2
+    nsev = R.bisect_max(lambda n: post_health(n) <= 0, max(1, have))
+    if nsev < 2 or nsev >= have:
+        dist["no-crossing"] = dist.get("no-crossing", 0) + 1
+        return None
+    dist["crossing"] = dist.get("crossing", 0) + 1
+    for k in (1, 2, 3, 10, 100, 1000, nsev // 1000 + 5):
+        if nsev + k <= have:
+            ops.append([17, 0, 1, ab, lb, nsev + k])
+    for k in (0, 1, 2):
+        ops.append([17, 0, 1, ab, lb, max(1, nsev - k)])
+    return R.case_line(2, 3, pf, now, banks, orcs, ops)
 
 
 def _trace(suite, case, impl):
